@@ -67,10 +67,10 @@ func applyConsEdit(root *yjson.Object, e *Edit) bool {
 }
 
 type conservationMonitor struct {
-	prop  string
-	incs  map[int]int64
-	keys  map[int][]string
-	toks  map[int][]string
+	prop   string
+	incs   map[int]int64
+	keys   map[int][]string
+	toks   map[int][]string
 	lostOK map[int]bool // slots whose unsent edits were legitimately abandoned
 }
 
@@ -185,7 +185,9 @@ type logShapeMonitor struct {
 	reattached map[int]bool
 }
 
-func (m *logShapeMonitor) AfterStep(rc *RunCtx, i int, st *Step, res *StepResult) *Violation { return nil }
+func (m *logShapeMonitor) AfterStep(rc *RunCtx, i int, st *Step, res *StepResult) *Violation {
+	return nil
+}
 
 func (m *logShapeMonitor) Final(rc *RunCtx) *Violation {
 	ctx := context.Background()
